@@ -58,7 +58,7 @@ PROPS = {
     "C04": dict(
         title="Scalar multiplication returns [n]P for every scalar and point",
         verus=[], kani=[],
-        cases=_c(["mul_vs_dbladd", "mulgen_vs_dbladd", "mul_homomorphism", "recode_scalar", "recode_u128"]) + ["gls254_zeta_split"],
+        cases=_c(["mul_vs_dbladd", "mulgen_vs_dbladd", "mul_homomorphism", "recode_scalar", "recode_u128"]) + ["gls254_zeta_split", "jq255e_split_mu", "secp256k1_split_theta"],
         level="exploration",
     ),
     "C05": dict(
@@ -105,9 +105,12 @@ PROPS = {
     ),
     "C11": dict(
         title="Scalar splitting functions meet their contracts and always terminate",
-        verus=[], kani=[],
-        cases=["modint_split", "gfgen_split", "gls254_zeta_split"],
-        level="exploration",
+        verus=[],
+        kani=[("zz::k_zz_linear", "quick", "full-domain"), ("zz::k_zz256", "quick", "full-domain"), ("zz::k_zz384", "quick", "full-domain")],
+        cases=["modint_split", "gfgen_split", "gls254_zeta_split", "jq255e_split_mu", "secp256k1_split_theta"],
+        level_text="The helper integers the endomorphism splits are built from (src/backend/w64/zz.rs: Zu128 abs / double_inc_abs / set_sub / set_sub_u32, Zu256 trunc128 / add_rsh224 / borrow, Zu384 set_add / trunc_and_rsh_cc for every shift 225..255) are proved by Kani on their full input domain. The split functions themselves (lattice reduction, rounded division) and termination are stand-in only; four genuine defects found there were repaired (known_findings.json).",
+        level_note="Lagrange reduction quality/termination and mul_divr_rounded are not under contract; the wide multiplications mul128x128 / mul256x128 are stand-in only (CBMC did not finish the multiplier equivalence).",
+        not_reached=["lagrange*_vartime, split_vartime, split_mu, split_theta, mul_divr_rounded", "Zu128::mul128x128, Zu256::mul256x128"],
     ),
     "C12": dict(
         title="Field division, inversion, square root and Legendre symbol are correct",
